@@ -10,6 +10,41 @@ RULE = ("seeded type-directed random programs (whole statement/expression gramma
         "executed; distinct by (text, tree, mode, globals, config)")
 
 
+def edge_shapes(tier):
+    """several edges out of (and into) one node, created in one order and given attributes in another, in the same stanza or a later one"""
+    import astgen as A
+    v, c, i = A.var, A.cap, A.integer
+    r = A.rng(1)
+    cases = []
+    k = 0
+    for nsinks in (2, 3, 4, 5, 7):
+        for rep in range(2 if tier == "quick" else 12):
+            names = ["b%d" % j for j in range(nsinks)]
+            create = names[:]
+            r.shuffle(create)
+            order = names[:]
+            r.shuffle(order)
+            later = rep % 2 == 1
+            hub = A.svar(c("m"), "hub") if later else v("a")
+            sink = (lambda n: A.svar(c("m"), n)) if later else v
+            st = [A.node(hub)] + [A.node(sink(n)) for n in create]
+            # creation order of the nodes differs from the order in which the edges are added
+            r.shuffle(create)
+            st += [A.edge(hub, sink(n)) for n in create]
+            if rep % 3 == 0:
+                st += [A.edge(sink(n), hub) for n in create[:2]]
+            at = [A.attre(hub, sink(n), A.attr("w", i(j)), A.attr("to", A.string(n))) for j, n in enumerate(order)]
+            if rep % 3 == 0:
+                at += [A.attre(sink(n), hub, A.attr("back", i(1))) for n in create[:2]]
+            if later:
+                prog = A.file([A.stanza("(module) @m ", st), A.stanza("(module) @m ", at)])
+            else:
+                prog = A.file([A.stanza("(module) @m ", st + at)])
+            cases += A.both_modes("c01e-%d" % k, prog, 1 + k % 3)
+            k += 1
+    return cases
+
+
 def run(tier):
     run = X.ExecRun(PROP, tier)
     d = C.workdir("c01")
@@ -21,6 +56,7 @@ def run(tier):
     # shaped programs of the scoped-variable and scan checks (inheritance chains, same-range nodes, tying scan arms)
     import checks.c04 as c04
     run.add_cases("c01_shaped", c04.shaped_cases(tier, "c01s"))
+    run.add_cases("c01_edges", edge_shapes(tier))
     run.classify_all()
     # stanzas in file order, matches in cursor order (strict mode): the `match` events against raw tree-sitter
     import checks.c03 as c03
